@@ -264,6 +264,30 @@ pub fn run(ws: &[&str]) -> String {
     format!("{} calls={}", out, calls.get())
 }
 
+fn render_error_short<T: ErrorResponseType + AsRef<str> + std::fmt::Display + 'static>(e: &StandardErrorResponse<T>) -> String {
+    format!(
+        "err:{}:{}:{}:{}",
+        tok_bytes(e.error().as_ref().as_bytes()),
+        tok_opt(e.error_description().map(|s| s.as_bytes())),
+        tok_opt(e.error_uri().map(|s| s.as_bytes())),
+        tok_bytes(e.to_string().as_bytes())
+    )
+}
+
+/// serialise, read back, serialise again
+fn built_rt<V, F>(v: &V, rend: F) -> String
+where
+    V: Serialize + serde::de::DeserializeOwned,
+    F: Fn(&V) -> String,
+{
+    let j = serde_json::to_string(v).unwrap();
+    let rt = match serde_json::from_slice::<V>(j.as_bytes()) {
+        Ok(v2) => format!("{} {}", rend(&v2), tok_bytes(serde_json::to_string(&v2).unwrap().as_bytes())),
+        Err(_) => "err".to_string(),
+    };
+    format!("ok {} {} rt {}", rend(v), tok_bytes(j.as_bytes()), rt)
+}
+
 /// `DECODE family ef text urltab`
 pub fn decode(ws: &[&str]) -> String {
     if ws.len() != 4 {
@@ -277,15 +301,7 @@ pub fn decode(ws: &[&str]) -> String {
     macro_rules! de {
         ($t:ty, $r:expr) => {
             match serde_json::from_slice::<$t>(&text) {
-                Ok(v) => okv($r(&v), &v),
-                Err(_) => "err".to_string(),
-            }
-        };
-    }
-    macro_rules! dee {
-        ($t:ty) => {
-            match serde_json::from_slice::<StandardErrorResponse<$t>>(&text) {
-                Ok(v) => render_error(&v),
+                Ok(v) => built_rt(&v, $r),
                 Err(_) => "err".to_string(),
             }
         };
@@ -297,9 +313,83 @@ pub fn decode(ws: &[&str]) -> String {
         ("introspection", true) => de!(XIntro, render_intro),
         ("device", false) => de!(StandardDeviceAuthorizationResponse, render_dev),
         ("device", true) => de!(XDev, render_dev),
-        ("err-basic", _) => dee!(BasicErrorResponseType),
-        ("err-device", _) => dee!(DeviceCodeErrorResponseType),
-        ("err-revocation", _) => dee!(RevocationErrorResponseType),
+        ("err-basic", _) => de!(StandardErrorResponse<BasicErrorResponseType>, render_error_short),
+        ("err-device", _) => de!(StandardErrorResponse<DeviceCodeErrorResponseType>, render_error_short),
+        ("err-revocation", _) => de!(StandardErrorResponse<RevocationErrorResponseType>, render_error_short),
+        _ => BAD.into(),
+    }
+}
+
+fn parse_tt(t: &str) -> Option<BasicTokenType> {
+    match t {
+        "bearer" => Some(BasicTokenType::Bearer),
+        "mac" => Some(BasicTokenType::Mac),
+        _ => t.strip_prefix("ext:").and_then(untok_str).map(BasicTokenType::Extension),
+    }
+}
+fn optlist_str(t: &str) -> Option<Option<Vec<String>>> {
+    if t == "-" {
+        Some(None)
+    } else {
+        untok_list_str(t).map(Some)
+    }
+}
+
+/// `BUILT family a b c d e f`: values made with new()/set_*()
+pub fn built(ws: &[&str]) -> String {
+    if ws.len() != 7 {
+        return BAD.into();
+    }
+    match ws[0] {
+        "token" => {
+            let (a, b, c, d, e) = match (untok_str(ws[1]), parse_tt(ws[2]), untok_opt_u64(ws[3]), untok_opt_str(ws[4]), optlist_str(ws[5])) {
+                (Some(a), Some(b), Some(c), Some(d), Some(e)) => (a, b, c, d, e),
+                _ => return BAD.into(),
+            };
+            let mut t = BasicTokenResponse::new(AccessToken::new(a), b, EmptyExtraTokenFields {});
+            let dur = c.map(std::time::Duration::from_secs);
+            t.set_expires_in(dur.as_ref());
+            t.set_refresh_token(d.map(RefreshToken::new));
+            t.set_scopes(e.map(|l| l.into_iter().map(Scope::new).collect()));
+            built_rt(&t, render_token)
+        }
+        "introspection" => {
+            let active = ws[1] == "1";
+            let (b, c, e, f) = match (optlist_str(ws[2]), untok_opt_str(ws[3]), ws[5], optlist_str(ws[6])) {
+                (Some(b), Some(c), e, Some(f)) => (b, c, e, f),
+                _ => return BAD.into(),
+            };
+            let d = if ws[4] == "-" { None } else { match parse_tt(ws[4]) { Some(t) => Some(t), None => return BAD.into() } };
+            let mut r = BasicTokenIntrospectionResponse::new(active, EmptyExtraTokenFields {});
+            r.set_scopes(b.map(|l| l.into_iter().map(Scope::new).collect()));
+            r.set_client_id(c.map(ClientId::new));
+            r.set_token_type(d);
+            if e != "-" {
+                let secs: i64 = match e.parse() { Ok(s) => s, Err(_) => return BAD.into() };
+                match chrono::DateTime::from_timestamp(secs, 0) {
+                    Some(t) => r.set_exp(Some(t)),
+                    None => return BAD.into(),
+                }
+            }
+            r.set_aud(f);
+            built_rt(&r, render_intro)
+        }
+        "err-basic" => {
+            let (a, b, c) = match (untok_str(ws[1]), untok_opt_str(ws[2]), untok_opt_str(ws[3])) {
+                (Some(a), Some(b), Some(c)) => (a, b, c),
+                _ => return BAD.into(),
+            };
+            let code: BasicErrorResponseType = serde_json::from_str(&serde_json::to_string(&a).unwrap()).unwrap();
+            built_rt(&StandardErrorResponse::new(code, b, c), render_error_short)
+        }
+        "err-device" => {
+            let (a, b, c) = match (untok_str(ws[1]), untok_opt_str(ws[2]), untok_opt_str(ws[3])) {
+                (Some(a), Some(b), Some(c)) => (a, b, c),
+                _ => return BAD.into(),
+            };
+            let code: DeviceCodeErrorResponseType = serde_json::from_str(&serde_json::to_string(&a).unwrap()).unwrap();
+            built_rt(&StandardErrorResponse::new(code, b, c), render_error_short)
+        }
         _ => BAD.into(),
     }
 }
